@@ -16,10 +16,11 @@ echo "suite with patch: $suite"; [ $suite = FAIL ] && tail -5 /tmp/seedv-suite.l
 demo=$(ls "$d"/demo*_test.go 2>/dev/null | head -1)
 if [ -z "$demo" ]; then echo "no demo test"; exit 0; fi
 cp "$d"/demo*_test.go "$with/"; cp "$d"/demo*_test.go "$without/"
+race=${SEED_RACE:+-race}
 names=$(grep -ho "^func Test[A-Za-z0-9_]*" "$d"/demo*_test.go | sed 's/func //' | paste -sd'|')
 for i in 1 2 3; do
- if (cd "$with" && go test -vet=off -count=1 -timeout 300s -run "^($names)\$" . >/tmp/seedv-demo-with.log 2>&1); then echo "demo with patch (run $i): PASS"; else echo "demo with patch (run $i): FAIL"; fi
+ if (cd "$with" && go test $race -vet=off -count=1 -timeout 300s -run "^($names)\$" . >/tmp/seedv-demo-with.log 2>&1); then echo "demo with patch (run $i): PASS"; else echo "demo with patch (run $i): FAIL"; fi
 done
 for i in 1 2 3; do
- if (cd "$without" && go test -vet=off -count=1 -timeout 300s -run "^($names)\$" . >/tmp/seedv-demo-without.log 2>&1); then echo "demo without patch (run $i): PASS"; else echo "demo without patch (run $i): FAIL"; tail -5 /tmp/seedv-demo-without.log; fi
+ if (cd "$without" && go test $race -vet=off -count=1 -timeout 300s -run "^($names)\$" . >/tmp/seedv-demo-without.log 2>&1); then echo "demo without patch (run $i): PASS"; else echo "demo without patch (run $i): FAIL"; tail -5 /tmp/seedv-demo-without.log; fi
 done
